@@ -1,8 +1,106 @@
 import UF.Driver.Decode
 import UF.Model.Match
+import UF.Model.ParseOptions
 import UF.Spec.Match
 /- Ops of work group E (see notes/AGENT_GUIDE.md). Return `none` for ops of other groups. -/
 namespace UF.Ops
+
+/-! ### Encoders: the same single-token format as harness/wire.go (`wnetrule`). -/
+
+def encStrs (l : List Bytes) : String := outList (l.map outBytes)
+def encNats (l : List Nat) : String := outList (l.map toString)
+
+def encPrefix (p : Prefix) : String :=
+  outList [outBool p.addr.is4, toString p.addr.val, toString p.bits]
+
+def encClients : Option Clients → String
+  | none => "_"
+  | some c => outList [encStrs c.hosts, outList (c.nets.map encPrefix)]
+
+def encValue : RRVal → String
+  | .none => "_"
+  | .addr a => outList ["addr", outBool a.is4, toString a.val]
+  | .str s => outList ["str", outBytes s]
+  | .mx p e => outList ["mx", toString p, outBytes e]
+  | .srv p w po t => outList ["srv", toString p, toString w, toString po, outBytes t]
+  | .svcb p t ps =>
+    outList ["svcb", toString p, outBytes t,
+      match ps with
+      | none => "_"
+      | some kv => outList (kv.map fun (k, v) => outList [outBytes k, outBytes v])]
+
+def encRewrite : Option DnsRewrite → String
+  | none => "_"
+  | some d => outList [toString d.rcode, toString d.rrType, outBytes d.newCNAME, encValue d.value]
+
+def encNetRule (r : NetRule) : String :=
+  outList ["R", outBytes r.text, toString r.listID, outBool r.whitelist, outBytes r.pattern, outBytes r.shortcut,
+    encStrs r.permDomains, encStrs r.restrDomains, encStrs r.denyallow, encNats r.permDns, encNats r.restrDns,
+    encStrs r.permTags, encStrs r.restrTags, encClients r.permClients, encClients r.restrClients,
+    toString r.enabled, toString r.disabled, toString r.permTypes, toString r.restrTypes, encRewrite r.rewrite]
+
+/-! ### Oracle tables of the parser ops -/
+
+/-- prefix table: `((string prefix|_)…)`. -/
+def decPrefixTable (w : W) : Option (List (Bytes × Option Prefix)) := do
+  let xs ← w.list?
+  xs.mapM fun e => match e with
+    | .l [s, p] => do
+      let s ← s.bytes?
+      if p.isNone then pure (s, none) else pure (s, some (← decPrefix p))
+    | _ => none
+
+/-- rewrite table: `((value err|rewrite)…)`. -/
+def decRewriteTable (w : W) : Option (List (Bytes × Option DnsRewrite)) := do
+  let xs ← w.list?
+  xs.mapM fun e => match e with
+    | .l [s, .a "err"] => do pure (← s.bytes?, none)
+    | .l [s, rw] => do
+      let s ← s.bytes?
+      let rw ← decRewrite rw
+      pure (s, rw)
+    | _ => none
+
+/-- regexp shortcut table: `((pattern shortcut)…)`. -/
+def decShortcutTable (w : W) : Option (List (Bytes × Bytes)) := do
+  let xs ← w.list?
+  xs.mapM fun e => match e with
+    | .l [p, s] => do pure (← p.bytes?, ← s.bytes?)
+    | _ => none
+
+def mkParseExt (psl : List (Bytes × (Bytes × Bool))) (addrs : List (Bytes × Option Addr))
+    (prefixes : List (Bytes × Option Prefix)) (rewrites : List (Bytes × Option DnsRewrite))
+    (shortcuts : List (Bytes × Bytes)) (pats : List ((Bytes × Bool × Bytes) × Bool)) : ParseExt where
+  ext := { mkExt psl addrs pats with parsePrefix := tableLookup prefixes none }
+  loadDNSRewrite := tableLookup rewrites none
+  regexpShortcut := tableLookup shortcuts []
+
+/-- Is the model exact on this parse?  `strings.ToLower` of the shortcut is modelled for ASCII only
+    (the ASCII lower-casing keeps non-ASCII bytes, so a non-ASCII candidate shows in the result). -/
+def parseInDomain (x : PE NetRule) : Bool :=
+  match x with
+  | .ok r => Bytes.isAscii r.shortcut
+  | .error _ => true
+
+def outParse (x : PE NetRule) : String :=
+  match x with
+  | .ok r => (encNetRule r).replace " " ","   -- answers are single tokens without blanks
+  | .error .err => "err"
+  | .error .panic => "PANIC"
+
+/-- `c04.parse <text> <listID> <addrs> <prefixes> <rewrites> <reshortcuts>`: the model of
+    `NewNetworkRule`, printed in the format of `wnetrule`. -/
+def opC04Parse (args : List W) : String :=
+  match args with
+  | [text, id, addrs, prefixes, rewrites, shortcuts] =>
+    match text.bytes?, id.int?, decAddrTable addrs, decPrefixTable prefixes, decRewriteTable rewrites,
+        decShortcutTable shortcuts with
+    | some text, some id, some addrs, some prefixes, some rewrites, some shortcuts =>
+      let px := mkParseExt [] addrs prefixes rewrites shortcuts []
+      let res := parseNetRule px text id
+      if !parseInDomain res then "ood -" else outParse res ++ " -"
+    | _, _, _, _, _, _ => "bad-decode"
+  | _ => "bad-arity"
 
 /-- `c04.match <R> <Q> <psl> <addrs> (<pat>…)`: model = `NetRule.matches`, spec = `specMatch`
     (from the modifier values); `ood` outside the request domain of C04. -/
@@ -17,9 +115,30 @@ def opC04Match (args : List W) : String :=
     | _, _, _, _, _ => "bad-decode"
   | _ => "bad-arity"
 
+/-- `c04.textmatch <text> <listID> <addrs> <prefixes> <rewrites> <reshortcuts> <Q> <psl> (<pat>…)`:
+    model = `(parseNetRule text).matches q`, spec = `specMatch (parseNetRule text) q` — the
+    reference of the property computed from the rule TEXT. -/
+def opC04TextMatch (args : List W) : String :=
+  match args with
+  | [text, id, addrs, prefixes, rewrites, shortcuts, q, psl, pats] =>
+    match text.bytes?, id.int?, decAddrTable addrs, decPrefixTable prefixes, decRewriteTable rewrites,
+        decShortcutTable shortcuts, decRequest q, decPslTable psl, decPatTable pats with
+    | some text, some id, some addrs, some prefixes, some rewrites, some shortcuts, some q, some psl, some pats =>
+      let px := mkParseExt psl addrs prefixes rewrites shortcuts pats
+      let res := parseNetRule px text id
+      if !parseInDomain res || !q.inDomainB then "ood ood" else
+      match res with
+      | .ok r => outBool (r.matches px.ext q) ++ " " ++ outBool (specMatch px.ext r q)
+      | .error .err => "err err"
+      | .error .panic => "PANIC PANIC"
+    | _, _, _, _, _, _, _, _, _ => "bad-decode"
+  | _ => "bad-arity"
+
 def dispatchE (op : String) (args : List W) : Option String :=
   match op with
   | "c04.match" => some (opC04Match args)
+  | "c04.parse" => some (opC04Parse args)
+  | "c04.textmatch" => some (opC04TextMatch args)
   | _ => none
 
 end UF.Ops
